@@ -113,7 +113,7 @@ End Selmap.
 
 (* ---------- the input is read only at the keys of the filtered members ---------- *)
 Section WithConv.
-Variable conv : string -> pv -> pv.
+Variable conv : string -> pv -> option pv.
 Variable nba st : bool.
 
 Lemma field_block_ext : forall m d d',
@@ -240,15 +240,17 @@ Ltac band := repeat match goal with
 Ltac flags := rewrite ?orb_true_r, ?orb_false_r; try reflexivity; try assumption.
 
 Section Main.
-Variable conv : string -> pv -> pv.
+Variable conv : string -> pv -> option pv.
 Variable nba st : bool.
 
 Lemma fb_nodefault : forall m d, has_dflt (seen_default m) = false ->
-  field_block conv nba m d = FbMissing \/ exists v, field_block conv nba m d = FbSet v.
+  field_block conv nba m d = FbMissing \/ field_block conv nba m d = FbInvalid \/
+  exists v, field_block conv nba m d = FbSet v.
 Proof.
   intros m d H. unfold field_block. rewrite H. cbn.
   destruct (rd nba m d) as [p|]; [right|left; reflexivity].
   destruct (m_ident m); [eauto|]. destruct (nullable m && is_none p); eauto.
+  destruct (uconv conv m p); eauto.
 Qed.
 
 (* ---------- structure of the plan ---------- *)
@@ -274,7 +276,7 @@ Qed.
 Definition entry_ok (d: inp) (t: trip) : Prop :=
   match t with (m, p, f) =>
     (filtered m = false /\ p = PSkip /\ f = FbSkip) \/
-    (filtered m = true /\ f = field_block conv nba m d /\ f <> FbMissing /\
+    (filtered m = true /\ f = field_block conv nba m d /\ (f <> FbMissing /\ f <> FbInvalid) /\
      (if has_dflt (seen_default m) then p = PKwargs else (p = PPos \/ p = PKw)))
   end.
 
@@ -297,7 +299,7 @@ Qed.
 Lemma plan_cons_inv : forall m r mk ik d pl, plan conv nba st (m :: r) mk ik d = inr pl ->
   (filtered m = false /\ exists l, plan conv nba st r mk ik d = inr l /\ pl = (m, PSkip, FbSkip) :: l) \/
   (filtered m = true /\ exists x l,
-      field_block conv nba m d = x /\ x <> FbMissing /\
+      field_block conv nba m d = x /\ (x <> FbMissing /\ x <> FbInvalid) /\
       plan conv nba st r (mk || match seen_kw m with None => true | Some _ => false end)
                   (st && (has_dflt (seen_default m) || ik)) d = inr l /\
       pl = (m, (if has_dflt (seen_default m) then PKwargs
@@ -350,7 +352,7 @@ Proof.
            destruct st; [flags|]. rewrite (Hinv eq_refl) in Hfl. rewrite orb_false_r in *.
            apply orb_true_iff in Hfl. destruct Hfl as [->| ->]; flags.
         -- eapply (IH _ st true); try eassumption. flags.
-      * destruct (fb_nodefault m d Edf) as [Hm|[v Hs]]; [congruence|]. rewrite Hs in Eb. subst x.
+      * destruct Hx as [Hx1 Hx2]. destruct (fb_nodefault m d Edf) as [Hm|[Hm|[v Hs]]]; [congruence|congruence|]. rewrite Hs in Eb. subst x.
         cbn [orb] in E. rewrite Hsi in E.
         destruct (seen_kw m) as [b|] eqn:Ekw.
         -- specialize (Hkw b eq_refl). subst b.
@@ -399,7 +401,7 @@ Proof.
                  rewrite Hz. exists 0. reflexivity.
         -- assert (Hz: selmap tname sel_pos l = []) by (eapply (no_pos r _ st true d l); try eassumption; flags; auto); rewrite Hz.
            exists 0. reflexivity.
-      * destruct (fb_nodefault m d Edf) as [Hm|[v Hs]]; [congruence|]. rewrite Hs in Eb. subst x.
+      * destruct Hx as [Hx1 Hx2]. destruct (fb_nodefault m d Edf) as [Hm|[Hm|[v Hs]]]; [congruence|congruence|]. rewrite Hs in Eb. subst x.
         cbn [orb] in E. rewrite andb_false_r in E.
         destruct (seen_kw m) as [b|] eqn:Ekw.
         -- specialize (Hkw b eq_refl). subst b.
@@ -417,36 +419,59 @@ End Main.
 
 (* ---------- MissingField: the first required key that is absent ---------- *)
 Section Main2.
-Variable conv : string -> pv -> pv.
+Variable conv : string -> pv -> option pv.
 Variable nba st : bool.
 
-Lemma plan_missing : forall L mk ik d, forallb view_okm L = true ->
+(* the field block of a member the builder reads, in terms of the reference notions *)
+Lemma field_block_spec : forall m d, view_okm m = true -> filtered m = true ->
+  field_block conv nba m d =
+  match rd nba m d with
+  | None => if has_dflt (m_def m) then FbSkip else FbMissing
+  | Some v =>
+      match eff_conv conv m v with
+      | None => FbInvalid
+      | Some w => if negb (m_ident m) && (m_nullty m || dflt_is_none (m_def m)) && is_none v
+                     && dflt_is_none (m_def m)
+                  then FbSkip else FbSet w
+      end
+  end.
+Proof.
+  intros m d Hv Ef. destruct (view_filtered m Hv Ef) as [Hkind [Hfld [Hpar [Hd [Hn Hkw]]]]].
+  unfold field_block, eff_conv, tnullable, nullable, uconv. rewrite Hn, Hd.
+  destruct (rd nba m d) as [v|]; [|reflexivity].
+  destruct (m_ident m); [reflexivity|]. cbn [negb andb].
+  assert (Hdn: dflt_is_none (m_def m) = true -> has_dflt (m_def m) = true).
+  { destruct (m_def m) as [|dv|]; cbn; try discriminate; auto. }
+  destruct (m_nullty m), (m_unull m), (dflt_is_none (m_def m)) eqn:Edn, (is_none v) eqn:En; cbn;
+    rewrite ?andb_false_r, ?andb_true_r; try rewrite (Hdn eq_refl); cbn; try reflexivity;
+    destruct (conv (m_name m) v); reflexivity.
+Qed.
+
+Lemma plan_error : forall L mk ik d, forallb view_okm L = true ->
   match plan conv nba st L mk ik d with
-  | inl f => first_missing nba L d = Some f
-  | inr _ => first_missing nba L d = None
+  | inl e => first_error conv nba L d = Some e
+  | inr _ => first_error conv nba L d = None
   end.
 Proof.
   induction L as [|m r IH]; intros mk ik d Hv; [reflexivity|].
-  cbn in Hv. band. cbn [plan first_missing].
+  cbn in Hv. band. cbn [plan first_error].
   destruct (filtered m) eqn:Ef.
   - destruct (view_filtered m) as [Hkind [Hfld [Hpar [Hd [Hn Hkw]]]]]; try assumption.
-    unfold required, hinted. rewrite Hkind, Hfld, Hpar, <- Hd. cbn [andb].
-    unfold field_block, has_key.
+    rewrite (field_block_spec m d) by assumption.
+    unfold required, hinted. rewrite Hkind, Hfld, Hpar. cbn [andb].
     destruct (rd nba m d) as [v|] eqn:El.
-    + cbn [negb]. rewrite andb_false_r.
+    + destruct (eff_conv conv m v) as [w|]; [|reflexivity].
       match goal with |- context [plan conv nba st r ?a ?b d] => specialize (IH a b d H0); destruct (plan conv nba st r a b d) end;
-      destruct (m_ident m); try exact IH;
-      destruct (nullable m && is_none v); try exact IH;
-      destruct (has_dflt (seen_default m) && dflt_is_none (seen_default m)); exact IH.
-    + destruct (has_dflt (seen_default m)); cbn [negb andb]; [|reflexivity].
+      match goal with |- context [if ?c then FbSkip else FbSet w] => destruct c end; exact IH.
+    + rewrite Hd. destruct (has_dflt (m_def m)); cbn [negb]; [|reflexivity].
       match goal with |- context [plan conv nba st r ?a ?b d] => specialize (IH a b d H0); destruct (plan conv nba st r a b d) end;
       exact IH.
-  - assert (Hr: required m = false).
-    { unfold required. unfold filtered in Ef. destruct (hinted m) eqn:Eh; [|reflexivity].
+  - assert (Hr: hinted m && m_param m = false).
+    { unfold filtered in Ef. destruct (hinted m) eqn:Eh; [|reflexivity].
       cbn in Ef. unfold hinted in Eh. destruct (m_kind m) eqn:Ek; try discriminate.
       rewrite (view_unfiltered_normal m) by (auto; unfold filtered, hinted; rewrite Ek; exact Ef).
-      now rewrite andb_false_r. }
-    rewrite Hr. cbn [andb]. specialize (IH mk ik d H0). destruct (plan conv nba st r mk ik d); exact IH.
+      reflexivity. }
+    rewrite Hr. specialize (IH mk ik d H0). destruct (plan conv nba st r mk ik d); exact IH.
 Qed.
 
 (* ---------- the call binds ---------- *)
@@ -542,7 +567,7 @@ Theorem decode_ref : forall L d c,
   layout_ok L = true -> view_ok L = true -> decode conv nba st L d c = ref_decode conv nba L d c.
 Proof.
   intros L d c Hl Hv. unfold decode, ref_decode.
-  assert (Hm := plan_missing L false false d Hv).
+  assert (Hm := plan_error L false false d Hv).
   destruct (plan conv nba st L false false d) as [f|pl] eqn:Ep; rewrite Hm; [reflexivity|].
   rewrite (bind_ok L d pl Hl Hv Ep).
   assert (Hnd: NoDup (map m_name L)).
@@ -576,30 +601,26 @@ Proof.
     assert (Hlk': lookup (m_name m) (passed pl) = match f with FbSet v => Some v | _ => None end).
     { rewrite Hlk. destruct p; try congruence; reflexivity. }
     unfold step. rewrite Hlk', Hrb. unfold ref_sel, hinted. rewrite Hkind, Hfld, Hpar. cbn [andb].
-    assert (Hnm': field_block conv nba m d <> FbMissing) by (rewrite <- Hf; exact Hnm).
-    rewrite Hf. clear Hlk Hlk' Hf Hi Hnm. revert Hnm'.
-    unfold field_block, eff_conv, tnullable, nullable, uconv. rewrite Hn.
+    destruct Hnm as [Hnm Hni]. rewrite Hf in Hnm, Hni. rewrite Hf. clear Hlk Hlk' Hf Hi.
+    rewrite (field_block_spec m d Hv Ef) in *.
     destruct (rd nba m d) as [v|] eqn:El.
-    + intros _. destruct (m_ident m); [reflexivity|].
-      destruct (m_nullty m || dflt_is_none (m_def m)) eqn:Enl.
-      * assert (Hx: m_nullty m || m_unull m || dflt_is_none (m_def m) = true).
-        { destruct (m_nullty m), (m_unull m), (dflt_is_none (m_def m)); auto. }
-        rewrite Hx. cbn [andb]. destruct (is_none v) eqn:En; [|rewrite andb_false_r; reflexivity].
-        destruct (has_dflt (seen_default m) && dflt_is_none (m_def m)) eqn:Es; [|reflexivity].
-        apply andb_true_iff in Es. destruct Es as [_ Es].
-        destruct (m_def m) as [|dv|]; try discriminate. destruct dv; try discriminate. reflexivity.
-      * cbn [andb].
-        assert (Hx: m_nullty m || m_unull m || dflt_is_none (m_def m) = m_unull m).
-        { apply orb_false_iff in Enl. destruct Enl as [-> ->]. cbn. now rewrite orb_false_r. }
-        rewrite Hx. destruct (m_unull m && is_none v); reflexivity.
-    + destruct (has_dflt (seen_default m)); [reflexivity|congruence].
+    + destruct (eff_conv conv m v) as [w|] eqn:Ec; [|congruence].
+      destruct (negb (m_ident m) && (m_nullty m || dflt_is_none (m_def m)) && is_none v
+                && dflt_is_none (m_def m)) eqn:Es; [|reflexivity].
+      (* the null is not forwarded because the default is None anyway *)
+      band. unfold eff_conv, tnullable in Ec. destruct (m_ident m); [discriminate|].
+      assert (Hx: (m_nullty m || m_unull m || dflt_is_none (m_def m)) && is_none v = true).
+      { rewrite H1, H0. now rewrite orb_true_r. }
+      rewrite Hx in Ec. inversion Ec; subst.
+      destruct (m_def m) as [|dv|]; try discriminate. destruct dv; try discriminate. reflexivity.
+    + destruct (has_dflt (m_def m)); [reflexivity|congruence].
 Qed.
 
 End Main2.
 
 (* ---------- consequences spelled out per field ---------- *)
 Section Spelled.
-Variable conv : string -> pv -> pv.
+Variable conv : string -> pv -> option pv.
 Variable nba st : bool.
 
 Lemma step_mono : forall b m c v c2, step b m c = Some (v, c2) -> c <= c2.
@@ -635,13 +656,22 @@ Proof.
     apply String.eqb_eq in E. exfalso. apply Hni. rewrite <- E. now apply in_map.
 Qed.
 
-Lemma first_missing_none : forall L d m, first_missing nba L d = None -> In m L ->
-  required m = true -> has_key nba m d = true.
+Lemma first_error_none : forall L d m, first_error conv nba L d = None -> In m L ->
+  hinted m && m_param m = true ->
+  match rd nba m d with
+  | None => required m = false
+  | Some v => exists w, eff_conv conv m v = Some w
+  end.
 Proof.
   induction L as [|m0 r IH]; intros d m H Hi Hr; [contradiction|].
-  cbn in H. destruct (required m0 && negb (has_key nba m0 d)) eqn:E; try discriminate.
-  destruct Hi as [->|Hi]; [|eauto].
-  rewrite Hr in E. cbn in E. now apply negb_false_iff in E.
+  cbn in H. destruct Hi as [->|Hi].
+  - rewrite Hr in H. destruct (rd nba m d) as [v|].
+    + destruct (eff_conv conv m v); [eauto|discriminate].
+    + destruct (required m); [discriminate|reflexivity].
+  - apply IH; auto. destruct (hinted m0 && m_param m0); [|assumption].
+    destruct (rd nba m0 d) as [v|].
+    + destruct (eff_conv conv m0 v); [assumption|discriminate].
+    + destruct (required m0); [discriminate|assumption].
 Qed.
 
 Lemma walk_total : forall b L c,
@@ -653,7 +683,7 @@ Proof.
 Qed.
 
 Lemma ref_step_total : forall L d m c,
-  NoDup (map m_name L) -> forallb kind_ok L = true -> first_missing nba L d = None -> In m L ->
+  NoDup (map m_name L) -> forallb kind_ok L = true -> first_error conv nba L d = None -> In m L ->
   step (ref_bound conv nba L d) m c <> None.
 Proof.
   intros L d m c Hn Hk Hfm Hi. unfold step.
@@ -662,11 +692,13 @@ Proof.
   destruct (m_kind m) eqn:Ek.
   - destruct (m_field m) eqn:Ef; [|discriminate].
     destruct (m_param m) eqn:Ep.
-    + unfold hinted. rewrite Ek. cbn [andb].
-      destruct (m_def m) eqn:Ed; try (destruct (rd nba m d); discriminate).
-      assert (Hr: required m = true) by (unfold required, hinted; rewrite Ek, Ef, Ep, Ed; reflexivity).
-      assert (Hh := first_missing_none L d m Hfm Hi Hr). unfold has_key in Hh.
-      destruct (rd nba m d); discriminate.
+    + assert (Hh: hinted m && m_param m = true) by (unfold hinted; rewrite Ek, Ep; reflexivity).
+      assert (Hfe := first_error_none L d m Hfm Hi Hh).
+      unfold hinted. rewrite Ek. cbn [andb].
+      destruct (rd nba m d) as [v|].
+      * destruct Hfe as [w ->]. discriminate.
+      * unfold required, hinted in Hfe. rewrite Ek, Ef, Ep in Hfe. cbn in Hfe.
+        destruct (m_def m); try discriminate.
     + destruct (m_def m); discriminate.
   - unfold hinted. rewrite Ek. cbn [andb]. apply andb_true_iff in Hk. destruct Hk as [_ Hk].
     destruct (m_def m); discriminate.
@@ -675,11 +707,11 @@ Proof.
 Qed.
 
 Theorem binding : forall L d c,
-  layout_ok L = true -> view_ok L = true -> first_missing nba L d = None ->
+  layout_ok L = true -> view_ok L = true -> first_error conv nba L d = None ->
   exists a c', decode conv nba st L d c = OOk a c' /\ c <= c' /\
     forall m, In m L -> m_kind m = KNormal -> m_field m = true -> m_param m = true ->
       match rd nba m d with
-      | Some v => attr_of (m_name m) a = Some (Some (eff_conv conv m v))
+      | Some v => exists w, eff_conv conv m v = Some w /\ attr_of (m_name m) a = Some (Some w)
       | None =>
           match m_def m with
           | DVal v => attr_of (m_name m) a = Some (Some v)
@@ -700,27 +732,30 @@ Proof.
   unfold step in Hs. rewrite Hk, Hf, Hp in Hs.
   rewrite (ref_bound_lookup conv nba L d m Hnd Hi) in Hs. unfold ref_sel, hinted in Hs.
   rewrite Hk, Hp in Hs. cbn [andb] in Hs.
+  assert (Hh: hinted m && m_param m = true) by (unfold hinted; rewrite Hk, Hp; reflexivity).
+  assert (Hfe := first_error_none L d m Hfm Hi Hh).
   destruct (rd nba m d) as [v0|].
-  - inversion Hs; subst. exact Ha.
+  - destruct Hfe as [w Hw']. rewrite Hw' in Hs. inversion Hs; subst. eauto.
   - destruct (m_def m); inversion Hs; subst; try exact Ha.
     exists c1. split; [lia|exact Ha].
 Qed.
 
-Theorem missing : forall L d c f,
-  layout_ok L = true -> view_ok L = true -> first_missing nba L d = Some f ->
-  decode conv nba st L d c = OMissing f.
+(* the first block that fails decides: MissingField / InvalidFieldValue of that field *)
+Theorem error : forall L d c e,
+  layout_ok L = true -> view_ok L = true -> first_error conv nba L d = Some e ->
+  decode conv nba st L d c = outcome_of_err e.
 Proof.
-  intros L d c f Hl Hv Hfm. rewrite (decode_ref conv nba st L d c Hl Hv). unfold ref_decode. now rewrite Hfm.
+  intros L d c e Hl Hv Hfm. rewrite (decode_ref conv nba st L d c Hl Hv). unfold ref_decode. now rewrite Hfm.
 Qed.
 
-Lemma eff_conv_null : forall m, (m_ident m = true \/ tnullable m = true) -> eff_conv conv m PNone = PNone.
+Lemma eff_conv_null : forall m, (m_ident m = true \/ tnullable m = true) -> eff_conv conv m PNone = Some PNone.
 Proof.
   intros m H. unfold eff_conv. destruct (m_ident m); [reflexivity|].
   destruct H as [H|H]; [discriminate|]. rewrite H. reflexivity.
 Qed.
 
 Theorem null_wins : forall L d c m,
-  layout_ok L = true -> view_ok L = true -> first_missing nba L d = None ->
+  layout_ok L = true -> view_ok L = true -> first_error conv nba L d = None ->
   In m L -> m_kind m = KNormal -> m_field m = true -> m_param m = true ->
   tnullable m = true -> rd nba m d = Some PNone ->
   exists a c', decode conv nba st L d c = OOk a c' /\ attr_of (m_name m) a = Some (Some PNone).
@@ -728,7 +763,7 @@ Proof.
   intros L d c m Hl Hv Hfm Hi Hk Hf Hp Hn Hd.
   destruct (binding L d c Hl Hv Hfm) as [a [c' [Hdec [_ H]]]].
   exists a, c'. split; [assumption|]. specialize (H m Hi Hk Hf Hp). rewrite Hd in H.
-  rewrite eff_conv_null in H; auto.
+  destruct H as [w [Hw Ha]]. rewrite eff_conv_null in Hw by auto. inversion Hw; subst. exact Ha.
 Qed.
 
 (* ---------- freshness of factory-made objects ---------- *)
@@ -773,26 +808,27 @@ Proof.
 Qed.
 
 Lemma ref_bound_basic : forall L d,
-  (forall f v, basic (conv f v) = true) -> input_basic d = true ->
+  (forall f v w, conv f v = Some w -> basic w = true) -> input_basic d = true ->
   forallb (fun p => basic (snd p)) (ref_bound conv nba L d) = true.
 Proof.
   intros L d Hc Hd. unfold ref_bound, selmap. induction L as [|m r IH]; [reflexivity|].
   cbn [flat_map]. rewrite forallb_app, IH, andb_true_r.
   unfold ref_sel. destruct (hinted m && m_param m); [|reflexivity].
   destruct (rd nba m d) as [v|] eqn:El; [|reflexivity].
-  cbn. rewrite andb_true_r. unfold eff_conv.
-  destruct (m_ident m); [exact (rd_basic m d v Hd El)|].
-  destruct (tnullable m && is_none v); [reflexivity|apply Hc].
+  destruct (eff_conv conv m v) as [w|] eqn:Ec; [|reflexivity].
+  cbn. rewrite andb_true_r. unfold eff_conv in Ec.
+  destruct (m_ident m); [inversion Ec; subst; exact (rd_basic m d w Hd El)|].
+  destruct (tnullable m && is_none v); [inversion Ec; reflexivity|eapply Hc; eauto].
 Qed.
 
 (* the factory-made objects of one result carry exactly the labels c .. c'-1, in field order *)
 Theorem fresh_labels : forall L d c a c',
   layout_ok L = true -> view_ok L = true ->
-  (forall f v, basic (conv f v) = true) -> input_basic d = true -> defaults_basic L = true ->
+  (forall f v w, conv f v = Some w -> basic w = true) -> input_basic d = true -> defaults_basic L = true ->
   decode conv nba st L d c = OOk a c' -> c <= c' /\ labels a = seq c (c' - c).
 Proof.
   intros L d c a c' Hl Hv Hc Hd Hdb H. rewrite (decode_ref conv nba st L d c Hl Hv) in H.
-  unfold ref_decode in H. destruct (first_missing nba L d); try discriminate.
+  unfold ref_decode in H. destruct (first_error conv nba L d) as [e|]; [destruct e; discriminate|].
   destruct (walk (ref_bound conv nba L d) L c) as [[a0 c0]|] eqn:Ew; inversion H; subst.
   split; [eapply walk_mono; eauto|].
   unfold layout_ok in Hl. apply andb_true_iff in Hl. destruct Hl as [Hl _].
@@ -803,7 +839,7 @@ Qed.
 (* two results never share a factory-made object *)
 Theorem fresh_two : forall L d1 d2 c a1 c1 a2 c2,
   layout_ok L = true -> view_ok L = true ->
-  (forall f v, basic (conv f v) = true) -> input_basic d1 = true -> input_basic d2 = true ->
+  (forall f v w, conv f v = Some w -> basic w = true) -> input_basic d1 = true -> input_basic d2 = true ->
   defaults_basic L = true ->
   decode conv nba st L d1 c = OOk a1 c1 -> decode conv nba st L d2 c1 = OOk a2 c2 ->
   NoDup (labels a1 ++ labels a2).
